@@ -26,7 +26,8 @@ RULE = ("one case = a history of up to 40 operations over one EventProducer, 2-4
         "delivered or fired a nested event; distinct = digest of the history")
 COMPONENTS = {"real": ["pydsol.core.pubsub (EventProducer, EventType, Event, TimedEvent, EventListener)"],
               "stub": []}
-ASSUMPTIONS = ["metadata entries of type NoneType and payload values equal to None are not generated (the '== None' test makes that corner ambiguous)",
+ASSUMPTIONS = ["sizes are swarm-varied: about 2 % of the histories have 9-40 listeners, 1 % have 150 or 400 operations",
+               "metadata entries of type NoneType and payload values equal to None are not generated (the '== None' test makes that corner ambiguous)",
                "single-threaded: re-entrancy is the interleaving; the baton scheduler is idle"]
 
 # event types are process-global and must have unique names: fixed pools
@@ -100,13 +101,16 @@ def generate(seed, tier, idx=0):
         return {"kind": "metadata", "probes": probes}
     n_types = rng.randint(2, 4)
     n_list = rng.randint(2, 5)
+    if rng.random() < 0.02:
+        n_list = rng.choice([9, 17, 40])       # occasional crowds of listeners
     scripts = {}
     for l in range(n_list):
         if rng.random() < 0.6:
             for _ in range(rng.randint(1, 3)):
                 key = "%d:%d:%d" % (l, rng.randrange(n_types), rng.randint(1, 3))
                 scripts[key] = gen_ops(rng, rng.randint(1, 3), n_types, n_list, 1)
-    ops = gen_ops(rng, rng.choice([3, 5, 8, 12, 20, 30, 40]), n_types, n_list, 0)
+    ops = gen_ops(rng, rng.choice([3, 5, 8, 12, 20, 30, 40]) if rng.random() > 0.01
+                  else rng.choice([150, 400]), n_types, n_list, 0)
     return {"kind": "history", "n_types": n_types, "n_listeners": n_list,
             "ops": ops, "scripts": scripts}
 
